@@ -7,7 +7,7 @@ import z3
 from pyvc import sv
 from pyvc.contract import Contract
 from pyvc.sv import And, Or, Not, Implies, If, Bool, Str, Time, TOpt, TRef, TList, Pay
-from .base import HistT, TimeOpt, suffix_of, RETENTION_FIELDS
+from .base import HistT, TimeOpt, suffix_of, RETENTION_FIELDS, WORLD
 
 
 def register(reg):
@@ -34,14 +34,18 @@ def register(reg):
     # ---- IInput.source_updated(time): a target may pull upstream (get_data), which only evicts:
     #      every buffer stays a suffix of what it was and keeps its newest entry
     def su_mod(ctx):
-        return [(None, f) for f in RETENTION_FIELDS]
+        return [(None, f) for f in RETENTION_FIELDS] + [(WORLD, "$notify_log")]
 
     def su_post(ctx, result):
+        from .base import notify_log
         o = z3.Int(sv.uid("o"))
         d0 = ctx.old.get(o, "data")
         d1 = ctx.get(o, "data")
-        ex0 = ctx.old.get(o, "_out_infos_exchanged")
-        return z3.ForAll([o], suffix_of(d1, d0), patterns=[d1.n])
+        l0, l1 = notify_log(ctx.old), notify_log(ctx)
+        i = z3.Int(sv.uid("li"))
+        logged = And(l1.n == l0.n + 1, z3.ForAll([i], Implies(And(0 <= i, i < l0.n), sv.value_eq(l1.at(i), l0.at(i)))),
+                     sv.value_eq(l1.at(l0.n).items[0], ctx.self), sv.value_eq(l1.at(l0.n).items[1], ctx.time))
+        return And(z3.ForAll([o], suffix_of(d1, d0), patterns=[d1.n]), logged)
 
     reg.add(Contract("iface:IInput.source_updated", params={"time": TimeOpt}, note="method", verify=False,
                      modifies=su_mod, ensures=su_post))
